@@ -1002,8 +1002,9 @@ class Engine:
                 live.append((cond, r, classes))
         if not live:
             if run.merge_depth > 0 or run.merge_only:
-                # dead context inside a merged expression: any value will do
-                return tv_val(S.fld(attr)(t))
+                # no class is known to have this attribute (dead context, or a field only ever set from
+                # outside its class): read it as a plain field
+                return self.read_field(base, attr)
             return self.dead_value()
         if len(live) == 1:
             cond, r, classes = live[0]
@@ -1669,7 +1670,7 @@ class Engine:
             run.assume(z3.Implies(guard, nf) if guard is not None else nf)
         # havoc what the callee may modify
         for m in mods:
-            self.havoc_path(m, bound)
+            self.havoc_path(m, bound, check_frame=True)
         # result
         is_init = fi is not None and fi.name == "__init__"
         res = TV(z3.Const(run.fresh_name("res_" + c.key.split(":")[1].replace(".", "_")), S.Val))
@@ -1686,7 +1687,7 @@ class Engine:
             return self.ct.ext[name]
         return self.ct.find_class(name)
 
-    def havoc_path(self, m, bound):
+    def havoc_path(self, m, bound, check_frame=False):
         """m like 'self.index' or 'indices' (a container parameter)."""
         run = self.run
         parts = m.split(".")
@@ -1694,7 +1695,9 @@ class Engine:
         if len(parts) == 1:
             fr = run.fresh_of(base.t)
             if fr is None:
-                # in-world container in the caller's own modifies
+                if check_frame and not run.container_allowed(base.t):
+                    run.obligation("frame", z3.BoolVal(False), None, name=f"callee-modifies-{m}",
+                                   note=f"a callee mutates the container passed as {m}, which is neither fresh nor in this function's modifies clause")
                 run.havoc_world_container(base.t)
                 return
             self.B.havoc_fresh(self, fr)
@@ -1708,6 +1711,10 @@ class Engine:
         if fr is not None:
             fr.fields[attr] = newv
         else:
+            if check_frame and not run.modifies_allows(t, attr):
+                # the callee may write a field of an object that is neither fresh nor in OUR modifies clause
+                run.obligation("frame", z3.BoolVal(False), None, name=f"callee-modifies-{m}",
+                               note=f"a callee's modifies clause ({m}) reaches an object this function may not modify")
             key = (t.get_id(), attr)
             run.overlay[key] = newv
             run.overlay_terms[key] = t
